@@ -199,6 +199,16 @@ pub fn run(o: &Opts) -> Report {
             for s in spellings {
                 check(&mut rep, f, ccy, s);
             }
+            // rates (12d, no currency): up to ten decimals behind a short integer part
+            if f.0 == "36" {
+                for dec in 6..=10usize {
+                    for int in ["0", "1", "7", "12"] {
+                        if int.len() + 1 + dec > 12 { continue; }
+                        let frac: String = (0..dec).map(|k| if k + 1 == dec { char::from(b'1' + rng.below(9) as u8) } else { char::from(b'0' + rng.below(10) as u8) }).collect();
+                        check(&mut rep, f, ccy, &format!("{int},{frac}"));
+                    }
+                }
+            }
             // whole amounts around 2^53 minor units (exactly representable; must be printed back exactly)
             for s in ["999999999999999", "987654321098765", "90071992547410", "90071992547411", "9007199254742", "900719925475", "123456789012345"] {
                 check(&mut rep, f, ccy, s);
